@@ -184,7 +184,7 @@ class Src:
         return any(a <= k <= b for a, b in self._excluded)
 
     # ---- locating things -------------------------------------------------------------------
-    def find_block_by_header(self, header):
+    def find_block_by_header(self, header, multi=False):
         """Find `<header> {` where header is matched on whitespace-free token text; return the token
         index range (open_brace_k, close_brace_k)."""
         want = re.sub(r"\s+", "", header)
@@ -203,15 +203,19 @@ class Src:
                 jj = j
                 if self.tt(s[jj]) == "{":
                     hits.append((s[jj], self._match[s[jj]]))
+        if multi:
+            if not hits:
+                raise ExtractError(f"{self.path}: block header `{header}` not found")
+            return hits
         if len(hits) != 1:
             raise ExtractError(f"{self.path}: block header `{header}` found {len(hits)} times")
         return hits[0]
 
     def find_fn(self, name, within=None):
-        lo, hi = 0, len(self.toks)
+        ranges = [(0, len(self.toks))]
         if within:
-            lo, hi = self.find_block_by_header(within)
-        s = [k for k in self.sig if lo <= k <= hi and not self.excluded(k)]
+            ranges = self.find_block_by_header(within, multi=True)
+        s = [k for k in self.sig if any(lo <= k <= hi for lo, hi in ranges) and not self.excluded(k)]
         hits = []
         for idx in range(len(s) - 1):
             if self.tt(s[idx]) == "fn" and self.toks[s[idx]][0] == "ident" and self.tt(s[idx + 1]) == name:
